@@ -88,6 +88,33 @@ def _check_grouped(out, kind, tag, col, gid):
         if float(sum(tot.values())) != float(sum(col.tolist())):
             out.violation(f"grouped_sum:{tag}:conservation", case, f"{tot} vs {col.tolist()}")
 
+BIG_GIDS = [2**24 + 3, 40_000_001, 7]  # survey-style group ids far above the number of rows (numpy_groupies then allocates ~4e7 slots per call)
+
+
+def task_grouped_big_ids(n):
+    """All assignments of arrays of length n to group ids around / above 2**24 (and one small id): rows of a group are NOT adjacent in most."""
+    out = Partial()
+    ids = BIG_GIDS if n <= 3 else BIG_GIDS[:2]
+    fl, it = np.array(FLOATS[:n]), np.array(INTS[:n])
+    bits = np.array([i % 2 == 0 for i in range(n)])
+    for gid_t in itertools.product(ids, repeat=n):
+        gid = np.array(gid_t)
+        out.add_states(1)
+        out.outcome(("big", len(set(gid_t))))
+        try:
+            got = AG.grouped_count(gid)
+            out.step()
+            want = RA.grouped("count", None, list(gid_t))
+            if [float(x) for x in np.asarray(got).tolist()] != [float(x) for x in want]:
+                out.violation("grouped_count:value", {"group_id": gid}, f"got {got} expected {want}")
+        except Exception as e:  # noqa: BLE001
+            out.violation(f"grouped_count:exception:{type(e).__name__}", {"group_id": gid}, repr(e))
+        for tag, col in (("float", fl), ("int", it), ("bool", bits), ("date", DATES[:n].copy())):
+            for kind in APPLICABLE[tag]:
+                _check_grouped(out, kind, tag, col, gid)
+    out.sample({"n": n, "group_ids": ids}, limit=1)
+    return out.dump()
+
 
 def task_grouped(arg):
     n, small, prefix = arg
@@ -483,6 +510,8 @@ def run(tier):
         tasks += [(n, n <= (5 if thorough else 4), pre) for pre in itertools.product(GIDS, repeat=k)]
     for part in harness.pmap(task_grouped, harness.rotate(tasks)):
         rep.merge(part)
+    for part in harness.pmap(task_grouped_big_ids, [2, 3, 4, 5] + ([6] if thorough else [])):
+        rep.merge(part)
     for part in harness.pmap(task_medium, [6, 31, 32, 33, 64, 255, 256, 257, 300, 1000, 1025, 4097]):
         rep.merge(part)
     large = LARGE_N_QUICK + (LARGE_N_THOROUGH if thorough else [])
@@ -498,7 +527,7 @@ def run(tier):
         rep.merge(part)
     for d in (dates if thorough else dates[-1:]):
         check_precedence(rep, d.isoformat())
-    rep.bound = {"array_length": nmax, "group_id_alphabet": GIDS, "full_value_alphabets_up_to": 5 if thorough else 4,
+    rep.bound = {"array_length": nmax, "group_id_alphabet": GIDS, "large_group_ids": BIG_GIDS, "full_value_alphabets_up_to": 5 if thorough else 4,
                  "pointer_n": 4 if thorough else 3, "pointer_long_tables": large, "graph_dates": [d.isoformat() for d in dates]}
     rep.assumptions = ["reference mc/ref/aggregate.py (dict of member lists, math.fsum); dyadic values make float sums exact",
                        "grouped_count's dtype is not constrained (implementation returns float counts)", "integer group sums are exact up to 2**53 (numpy_groupies accumulates in float64); larger sums are outside the alphabet",
